@@ -11,6 +11,7 @@ from collections import Counter
 
 from ..common import Result, sut, digest
 from ..taps import RandomTap, installed, InjectedFault
+from ..interfere import interfere
 from ..stats import two_stage
 
 ID = "C05"
@@ -304,6 +305,10 @@ def run_case(case):
             tap = RandomTap(seed=rng.randrange(1 << 30), preset={"randrange": preset} if preset else None)
             if preset:
                 res.count("preset_randrange")
+            if rng.random() < 0.2:
+                # other features of the library used just before (on the same random source, as in a caller's process)
+                interfere(rng, tap, res, k=1)
+                del tap.log[:]
             with installed(tap, "jd") as inst:
                 r = check_sample(res, L, Nv, keys, sizes, tap, dict(ctx, N=Nv, preset=preset), weights=w)
             if r is None:
